@@ -31,7 +31,9 @@ MANIFEST = {
 TRUSTED = [
     "Lean 4.33 kernel; axioms ⊆ {propext, Classical.choice, Quot.sound}",
     "harness/translate/recipes/c03.py (torch.where predicate/branches, mask_func call, stage order of the masked operators)",
-    "torch.where and numpy-style broadcasting as encoded by whereWith/srcAt/bIdxR/bShapeR — validated by correspondence",
+    "torch.where and numpy-style broadcasting as encoded by whereWith/srcAt/bIdxR/bShapeR — validated by correspondence; the index "
+    "arithmetic itself (bShapeR, bIdxR, unravelR/ravelR) is additionally compared with np.broadcast_shapes / np.broadcast_to / "
+    "np.unravel_index on an exhaustive small scope and its inverse laws are proved (Lemmas/C03)",
     "encoding of float32 bit patterns as FVal tags (harness) and its decoder (Driver/C03.lean)",
     "forward/backward Fourier operators, expand_operator, reduce_operator are abstract (arbitrary) in the theorems",
 ]
@@ -404,6 +406,38 @@ def correspondence(ctx: Ctx):
                 return ok_vals(ApplyMaskModule()(smp)["masked_kspace"])
             yield {"line": pline("modmissing", [which], kshape, enc_vals(k)), "impl": _impl(run), "nontrivial": True,
                    "bucket": "malformed/module-missing-" + ("input" if which == 0 else "mask")}
+    # ---- the hand-written index arithmetic against numpy's own (exhaustive small scope): broadcast shapes, the
+    #      broadcast index map (np.broadcast_to of an arange), row-major unravel
+    dims = [1, 2, 3]
+    shapes = [[]] + [list(t) for r in (1, 2, 3) for t in itertools.product(dims, repeat=r)]
+    pairs = [(a, b) for a in shapes for b in shapes]
+    rng.shuffle(pairs)
+    for a, b in pairs[: ctx.budget(250, len(pairs))]:
+        def run_bs(a=a, b=b):
+            try:
+                return "ok " + ints(np.broadcast_shapes(tuple(a), tuple(b)))
+            except ValueError:
+                return "err ValueError"
+        yield {"line": pline("bshape", a, b), "impl": run_bs, "nontrivial": a != b and bool(a) and bool(b), "bucket": "index/bshape"}
+    n_bi = 0
+    for a, b in pairs:
+        if n_bi >= ctx.budget(150, 1500):
+            break
+        try:
+            out = list(np.broadcast_shapes(tuple(a), tuple(b)))
+        except ValueError:
+            continue
+        n_bi += 1
+
+        def run_bi(a=a, out=out):
+            src = np.arange(int(np.prod(a)) if a else 1).reshape(a)
+            return "ok " + ints(np.broadcast_to(src, out).reshape(-1).tolist())
+        yield {"line": pline("bindex", a, out), "impl": run_bi, "nontrivial": a != out, "bucket": "index/bindex"}
+    for _ in range(ctx.budget(40, 400)):
+        shp = [rng.choice([1, 2, 3, 4, 5]) for _ in range(rng.randint(1, 4))]
+        fl = rng.randrange(int(np.prod(shp)))
+        yield {"line": pline("unravel", shp, [fl]), "impl": lambda shp=shp, fl=fl: "ok " + ints(np.unravel_index(fl, shp)),
+               "nontrivial": len(shp) > 1, "bucket": "index/unravel"}
     # ---- malformed: masks that do not broadcast, k-space without complex axis
     for i in range(ctx.budget(40, 400)):
         kkind, kshape = gen_kshape(rng, 60)
